@@ -584,16 +584,17 @@ func convertRefsInSchemaRef(from *openapi3.SchemaRef, convert func(string) strin
 	}
 	to := *from
 	to.Ref = convert(to.Ref)
+	if from.Ref != "" {
+		// the value of a reference (there when the document was loaded) belongs to its target, which
+		// is converted where it is defined: descending into it here never ends on a recursive schema
+		return &to
+	}
 	if to.Value != nil {
 		v := *from.Value
 		to.Value = &v
 		v.AdditionalProperties = openapi3.AdditionalProperties{
 			Has:    v.AdditionalProperties.Has,
 			Schema: convertRefsInSchemaRef(v.AdditionalProperties.Schema, convert),
-		}
-		if from.Ref != "" {
-			// the value of a reference belongs to its target
-			return &to
 		}
 		v.Items = convertRefsInSchemaRef(v.Items, convert)
 		v.Not = convertRefsInSchemaRef(v.Not, convert)
